@@ -6,8 +6,11 @@ The abstract contents of every two-way combinator here are the left-biased union
 sub-stores' abstract contents.  A sub-store step moves its contents to the before- or the after-state
 of the operation (`StepOK`); the algebra below shows the union then also is at the before- or the
 after-state of the same operation, whichever mix of the two sides happened.  What remains per
-operation is the ANSWER: it must be exact or `.err`.  Two answers of the real `replica2Impl` are
-neither (see `replica2_rm_best_effort_counterexample`, `replica2_fetch_fallback_counterexample`). -/
+operation is the ANSWER: it must be exact or `.err`.  One answer of the real `replica2Impl` is
+neither: the "best effort" `.ok` of a remove that one replica failed
+(`replica2_rm_best_effort_counterexample`).  A second one, the fetch fallback passing on "not there"
+after the holder FAILED, was found here (finding F-C13-5), has been repaired in the Go code and in the
+model, and is kept as a counterexample about the old fetch (`replica2OldFetchImpl`). -/
 namespace Pk.Stores
 open Pk Pk.SMap Pk.RefMap
 
@@ -389,5 +392,751 @@ theorem replica2_both_spec {content : Bytes → Bytes} {a b : Impl} (Fa : FRefin
     rw [rep_enum_eq]
     exact pair_both Fa Fb sa sb _ ha hb hop (enumAns limit)
       (fun _ _ _ _ h1 h2 => enumAns_exact hA hB h1 h2) (enumAns_err_left limit) (enumAns_err_right limit)
+
+/-! ### fetch with fallback, generic in what is answered after the first replica FAILED -/
+
+/-- replica fetch: first replica; on "not there" the second replica's answer; after a failure of the
+first, `E` of the second replica's answer.  The real code has `E = fetchErrAns` (a failure outranks a
+later "not there"); before the repair of finding F-C13-5 it had `E = id`. -/
+def fetchStep (a b : Impl) (E : Out → Out) (sa : a.σ) (sb : b.σ) (k : Bytes) : (a.σ × b.σ) × Out :=
+  match a.step sa (.fetch k) with
+  | (sa1, .bytes v) => ((sa1, sb), .bytes v)
+  | (sa1, .notExist) => ((sa1, (b.step sb (.fetch k)).1), (b.step sb (.fetch k)).2)
+  | (sa1, _) => ((sa1, (b.step sb (.fetch k)).1), E (b.step sb (.fetch k)).2)
+
+/-- after a failure of the first replica only a hit on the second is an answer -/
+def fetchErrAns (ob : Out) : Out :=
+  match ob with
+  | .bytes v => .bytes v
+  | _ => .err
+
+theorem rep_fetch_eq (a b : Impl) (sa : a.σ) (sb : b.σ) (k : Bytes) :
+    (replica2Impl a b).step (sa, sb) (.fetch k) = fetchStep a b fetchErrAns sa sb k := by
+  rcases hpa : a.step sa (.fetch k) with ⟨sa1, oa⟩
+  rcases hpb : b.step sb (.fetch k) with ⟨sb1, ob⟩
+  cases oa <;> cases ob <;> simp [replica2Impl, fetchStep, fetchErrAns, hpa, hpb]
+
+theorem get_union_of_right {content : Bytes → Bytes} {A B : SMap Bytes} (hA : Good content A)
+    (hB : Good content B) {k w : Bytes} (h : SMap.get B k = some w) :
+    SMap.get (union A B) k = some w := by
+  rw [get_union]
+  cases hg : SMap.get A k with
+  | none => exact h
+  | some u => simp [(hA.2 k u hg).1, (hB.2 k w h).1]
+
+/-- the fetch of a replica pair: invariants kept, contents untouched; the answer is exact, or `.err`,
+or – only after a FAILURE of the first replica and a miss on the second – `E .notExist` -/
+theorem fetchStep_spec {content : Bytes → Bytes} {a b : Impl} (Fa : FRefines content a)
+    (Fb : FRefines content b) (E : Out → Out) (hEe : E .err = .err)
+    (hEb : ∀ w, E (.bytes w) = .bytes w) (sa : a.σ) (sb : b.σ) (k : Bytes)
+    (ha : Fa.Inv sa) (hb : Fb.Inv sb) :
+    Fa.Inv (fetchStep a b E sa sb k).1.1 ∧ Fb.Inv (fetchStep a b E sa sb k).1.2 ∧
+    Fa.abs (fetchStep a b E sa sb k).1.1 = Fa.abs sa ∧
+    Fb.abs (fetchStep a b E sa sb k).1.2 = Fb.abs sb ∧
+    ((fetchStep a b E sa sb k).2 = out (union (Fa.abs sa) (Fb.abs sb)) (.fetch k) ∨
+     (fetchStep a b E sa sb k).2 = .err ∨
+     ((fetchStep a b E sa sb k).2 = E .notExist ∧ (a.step sa (.fetch k)).2 = .err ∧
+       (b.step sb (.fetch k)).2 = .notExist ∧ SMap.get (Fb.abs sb) k = none ∧ ¬ Fa.Quiet sa)) ∧
+    (Fa.Quiet sa ∧ Fb.Quiet sb →
+      (fetchStep a b E sa sb k).2 = out (union (Fa.abs sa) (Fb.abs sb)) (.fetch k) ∧
+      Fa.Quiet (fetchStep a b E sa sb k).1.1 ∧ Fb.Quiet (fetchStep a b E sa sb k).1.2) := by
+  have hA := Fa.good sa ha
+  have hB := Fb.good sb hb
+  obtain ⟨hia, hsa⟩ := Fa.sub sa (.fetch k) ha trivial
+  obtain ⟨hib, hsb⟩ := Fb.sub sb (.fetch k) hb trivial
+  have haa := stepOK_read_abs hsa.1 trivial
+  have hbb := stepOK_read_abs hsb.1 trivial
+  unfold fetchStep
+  generalize a.step sa (.fetch k) = pa at hia hsa haa
+  generalize b.step sb (.fetch k) = pb at hib hsb hbb
+  obtain ⟨sa1, oa⟩ := pa
+  obtain ⟨sb1, ob⟩ := pb
+  simp only at hia hsa haa hib hsb hbb
+  obtain ⟨hsa1, hsa2⟩ := hsa
+  obtain ⟨hsb1, hsb2⟩ := hsb
+  rcases hsa1 with ⟨hoa, _⟩ | ⟨hoa, _⟩
+  · cases hg : SMap.get (Fa.abs sa) k with
+    | some v =>
+      have hoa' : oa = .bytes v := by rw [hoa]; simp only [out, hg]
+      subst hoa'
+      have hU : Out.bytes v = out (union (Fa.abs sa) (Fb.abs sb)) (.fetch k) := by
+        simp only [out, get_union, hg]
+      exact ⟨hia, hb, haa, rfl, Or.inl hU, fun hQ => ⟨hU, (hsa2 hQ.1).2.2, hQ.2⟩⟩
+    | none =>
+      have hoa' : oa = .notExist := by rw [hoa]; simp only [out, hg]
+      subst hoa'
+      have hU : out (union (Fa.abs sa) (Fb.abs sb)) (.fetch k) = out (Fb.abs sb) (.fetch k) := by
+        simp only [out, get_union, hg]
+      refine ⟨hia, hib, haa, hbb, ?_, fun hQ => ⟨?_, (hsa2 hQ.1).2.2, (hsb2 hQ.2).2.2⟩⟩
+      · rcases hsb1 with ⟨hob, _⟩ | ⟨hob, _⟩
+        · exact Or.inl (hob.trans hU.symm)
+        · exact Or.inr (Or.inl hob)
+      · exact ((hsb2 hQ.2).1).trans hU.symm
+  · subst hoa
+    refine ⟨hia, hib, haa, hbb, ?_, fun hQ => absurd (hsa2 hQ.1).1.symm (out_ne_err _ _)⟩
+    rcases hsb1 with ⟨hob, _⟩ | ⟨hob, _⟩
+    · cases hgb : SMap.get (Fb.abs sb) k with
+      | some w =>
+        have hob' : ob = .bytes w := by rw [hob]; simp only [out, hgb]
+        subst hob'
+        refine Or.inl ?_
+        simp only [out, get_union_of_right hA hB hgb]
+        exact hEb w
+      | none =>
+        have hob' : ob = .notExist := by rw [hob]; simp only [out, hgb]
+        subst hob'
+        exact Or.inr (Or.inr ⟨rfl, rfl, rfl, rfl,
+          fun hQ => absurd (hsa2 hQ).1.symm (out_ne_err _ _)⟩)
+    · subst hob
+      exact Or.inr (Or.inl hEe)
+
+/-! ### 3a. the strict replica: the model for which the fault contract holds in full -/
+
+/-- `replica2Impl` with one answer made honest: `.rm` answers `.ok` only if BOTH replicas did (`.err`
+otherwise).  Everything else, and every state change, is `replica2Impl`'s. -/
+def replica2StrictImpl (a b : Impl) : Impl where
+  σ := a.σ × b.σ
+  init := (a.init, b.init)
+  step := fun (sa, sb) op =>
+    match op with
+    | .rm k =>
+      (((a.step sa (.rm k)).1, (b.step sb (.rm k)).1),
+        rmStrictAns (a.step sa (.rm k)).2 (b.step sb (.rm k)).2)
+    | op => (replica2Impl a b).step (sa, sb) op
+
+theorem fetchErrAns_err : fetchErrAns .err = .err := rfl
+theorem fetchErrAns_bytes (w : Bytes) : fetchErrAns (.bytes w) = .bytes w := rfl
+
+/-- a fetch of the pair in `PairSpec` form, given that a first-replica failure is never answered by a
+bare "not there" -/
+theorem fetchStep_pair {content : Bytes → Bytes} {a b : Impl} (Fa : FRefines content a)
+    (Fb : FRefines content b) (E : Out → Out) (hEe : E .err = .err)
+    (hEb : ∀ w, E (.bytes w) = .bytes w) (hEn : E .notExist = .err) (sa : a.σ) (sb : b.σ) (k : Bytes)
+    (ha : Fa.Inv sa) (hb : Fb.Inv sb) :
+    PairSpec Fa Fb (sa, sb) (fetchStep a b E sa sb k).1 (fetchStep a b E sa sb k).2 (.fetch k) := by
+  obtain ⟨h1, h2, h3, h4, h5, h6⟩ := fetchStep_spec Fa Fb E hEe hEb sa sb k ha hb
+  have hU : union (Fa.abs (fetchStep a b E sa sb k).1.1) (Fb.abs (fetchStep a b E sa sb k).1.2) =
+      next (union (Fa.abs sa) (Fb.abs sb)) (.fetch k) := by rw [h3, h4]; rfl
+  refine ⟨h1, h2, Or.inl h3, Or.inl h4, ?_, fun hQ => ⟨(h6 hQ).1, hU, (h6 hQ).2⟩⟩
+  rcases h5 with h | h | ⟨h, _⟩
+  · exact Or.inl ⟨h, hU⟩
+  · exact Or.inr ⟨h, Or.inr hU⟩
+  · exact Or.inr ⟨h.trans hEn, Or.inr hU⟩
+
+theorem replica2Strict_step {content : Bytes → Bytes} {a b : Impl} (Fa : FRefines content a)
+    (Fb : FRefines content b) (sa : a.σ) (sb : b.σ) (op : Op)
+    (ha : Fa.Inv sa) (hb : Fb.Inv sb) (hop : op.WK content) :
+    PairSpec Fa Fb (sa, sb) ((replica2StrictImpl a b).step (sa, sb) op).1
+      ((replica2StrictImpl a b).step (sa, sb) op).2 op := by
+  cases op with
+  | recv k v => exact replica2_both_spec Fa Fb sa sb (.recv k v) trivial ha hb hop
+  | stat k => exact replica2_both_spec Fa Fb sa sb (.stat k) trivial ha hb hop
+  | enum after limit => exact replica2_both_spec Fa Fb sa sb (.enum after limit) trivial ha hb hop
+  | fetch k =>
+    show PairSpec Fa Fb (sa, sb) ((replica2Impl a b).step (sa, sb) (.fetch k)).1
+      ((replica2Impl a b).step (sa, sb) (.fetch k)).2 (.fetch k)
+    rw [rep_fetch_eq]
+    exact fetchStep_pair Fa Fb fetchErrAns rfl (fun _ => rfl) rfl sa sb k ha hb
+  | rm k =>
+    exact pair_both Fa Fb sa sb (.rm k) ha hb hop rmStrictAns
+      (fun _ _ _ _ h1 h2 => rmStrictAns_exact (Fa.good sa ha) (Fb.good sb hb) h1 h2)
+      rmStrictAns_err_left rmStrictAns_err_right
+
+/-- the strict replica over any two fault-tolerant stores is fault-tolerant; the two replicas need
+not agree (after a failed write they may not): the contents are their union -/
+def replica2FRefines {content : Bytes → Bytes} {a b : Impl} (Fa : FRefines content a)
+    (Fb : FRefines content b) : FRefines content (replica2StrictImpl a b) where
+  abs := fun s => union (Fa.abs s.1) (Fb.abs s.2)
+  Inv := fun s => Fa.Inv s.1 ∧ Fb.Inv s.2
+  Quiet := fun s => Fa.Quiet s.1 ∧ Fb.Quiet s.2
+  init_inv := ⟨Fa.init_inv, Fb.init_inv⟩
+  init_abs := by simp [replica2StrictImpl, Fa.init_abs, Fb.init_abs, union]
+  good := fun s h => good_union (Fa.good _ h.1) (Fb.good _ h.2)
+  step_ok := fun s op h hop =>
+    have p := replica2Strict_step Fa Fb s.1 s.2 op h.1 h.2 hop
+    ⟨⟨p.1, p.2.1⟩, p.2.2.2.2.1⟩
+  quiet_step := fun s op h hq hop =>
+    (replica2Strict_step Fa Fb s.1 s.2 op h.1 h.2 hop).2.2.2.2.2 hq
+
+/-! ### 3b. the real replica: what holds, and the one answer that breaks the contract -/
+
+theorem rmAns_vs_strict (oa ob : Out) :
+    rmAns oa ob = rmStrictAns oa ob ∨
+    (rmAns oa ob = .ok ∧ rmStrictAns oa ob = .err ∧ ((oa = .ok ∧ ob ≠ .ok) ∨ (oa ≠ .ok ∧ ob = .ok))) := by
+  cases oa <;> cases ob <;> simp [rmAns, rmStrictAns]
+
+/-- remove of the real replica: either the full contract, or – exactly one replica's remove having
+FAILED – the call still answers `.ok`; even then both invariants hold and the contents are at the
+before- or the after-state (but `.ok` promises the after-state: this is not `StepOK`) -/
+theorem replica2_rm_step {content : Bytes → Bytes} {a b : Impl} (Fa : FRefines content a)
+    (Fb : FRefines content b) (sa : a.σ) (sb : b.σ) (k : Bytes) (ha : Fa.Inv sa) (hb : Fb.Inv sb) :
+    PairSpec Fa Fb (sa, sb) ((replica2Impl a b).step (sa, sb) (.rm k)).1
+      ((replica2Impl a b).step (sa, sb) (.rm k)).2 (.rm k) ∨
+    (((replica2Impl a b).step (sa, sb) (.rm k)).2 = .ok ∧
+     (((a.step sa (.rm k)).2 = .ok ∧ (b.step sb (.rm k)).2 = .err) ∨
+      ((a.step sa (.rm k)).2 = .err ∧ (b.step sb (.rm k)).2 = .ok)) ∧
+     Fa.Inv ((replica2Impl a b).step (sa, sb) (.rm k)).1.1 ∧
+     Fb.Inv ((replica2Impl a b).step (sa, sb) (.rm k)).1.2 ∧
+     (Fa.abs ((replica2Impl a b).step (sa, sb) (.rm k)).1.1 = Fa.abs sa ∨
+      Fa.abs ((replica2Impl a b).step (sa, sb) (.rm k)).1.1 = next (Fa.abs sa) (.rm k)) ∧
+     (Fb.abs ((replica2Impl a b).step (sa, sb) (.rm k)).1.2 = Fb.abs sb ∨
+      Fb.abs ((replica2Impl a b).step (sa, sb) (.rm k)).1.2 = next (Fb.abs sb) (.rm k)) ∧
+     (union (Fa.abs ((replica2Impl a b).step (sa, sb) (.rm k)).1.1)
+          (Fb.abs ((replica2Impl a b).step (sa, sb) (.rm k)).1.2) = union (Fa.abs sa) (Fb.abs sb) ∨
+      union (Fa.abs ((replica2Impl a b).step (sa, sb) (.rm k)).1.1)
+          (Fb.abs ((replica2Impl a b).step (sa, sb) (.rm k)).1.2) =
+        next (union (Fa.abs sa) (Fb.abs sb)) (.rm k)) ∧
+     ¬ (Fa.Quiet sa ∧ Fb.Quiet sb)) := by
+  have P := replica2Strict_step Fa Fb sa sb (.rm k) ha hb trivial
+  have hsa := (Fa.step_ok sa (.rm k) ha trivial).2
+  have hsb := (Fb.step_ok sb (.rm k) hb trivial).2
+  rw [rep_rm_eq]
+  rcases rmAns_vs_strict (a.step sa (.rm k)).2 (b.step sb (.rm k)).2 with h | ⟨h1, h2, h3⟩
+  · rw [h]; exact Or.inl P
+  · refine Or.inr ⟨h1, ?_, P.1, P.2.1, P.2.2.1, P.2.2.2.1, stepOK_move P.2.2.2.2.1, ?_⟩
+    · have hoa : (a.step sa (.rm k)).2 = .ok ∨ (a.step sa (.rm k)).2 = .err := by
+        rcases hsa with ⟨h, _⟩ | ⟨h, _⟩
+        · exact Or.inl h
+        · exact Or.inr h
+      have hob : (b.step sb (.rm k)).2 = .ok ∨ (b.step sb (.rm k)).2 = .err := by
+        rcases hsb with ⟨h, _⟩ | ⟨h, _⟩
+        · exact Or.inl h
+        · exact Or.inr h
+      rcases h3 with ⟨h4, h5⟩ | ⟨h4, h5⟩
+      · rcases hob with h | h
+        · exact absurd h h5
+        · exact Or.inl ⟨h4, h⟩
+      · rcases hoa with h | h
+        · exact absurd h h4
+        · exact Or.inr ⟨h, h5⟩
+    · intro hQ
+      have := (P.2.2.2.2.2 hQ).1
+      change rmStrictAns _ _ = _ at this
+      rw [h2] at this
+      exact absurd this.symm (out_ne_err _ _)
+
+/-- fetch of the real replica (after the repair of finding F-C13-5): the full contract -/
+theorem replica2_fetch_step {content : Bytes → Bytes} {a b : Impl} (Fa : FRefines content a)
+    (Fb : FRefines content b) (sa : a.σ) (sb : b.σ) (k : Bytes) (ha : Fa.Inv sa) (hb : Fb.Inv sb) :
+    PairSpec Fa Fb (sa, sb) ((replica2Impl a b).step (sa, sb) (.fetch k)).1
+      ((replica2Impl a b).step (sa, sb) (.fetch k)).2 (.fetch k) := by
+  rw [rep_fetch_eq]
+  exact fetchStep_pair Fa Fb fetchErrAns rfl (fun _ => rfl) rfl sa sb k ha hb
+
+/-- the contract of the real `replica2Impl`, for every operation, PROVIDED the one bad case does not
+occur at this step: a remove on which exactly one replica answered `.ok` -/
+theorem replica2_step_ok_of {content : Bytes → Bytes} {a b : Impl} (Fa : FRefines content a)
+    (Fb : FRefines content b) (sa : a.σ) (sb : b.σ) (op : Op)
+    (ha : Fa.Inv sa) (hb : Fb.Inv sb) (hop : op.WK content)
+    (hrm : ∀ k, op = .rm k → ((a.step sa (.rm k)).2 = .ok ↔ (b.step sb (.rm k)).2 = .ok)) :
+    PairSpec Fa Fb (sa, sb) ((replica2Impl a b).step (sa, sb) op).1
+      ((replica2Impl a b).step (sa, sb) op).2 op := by
+  cases op with
+  | recv k v => exact replica2_both_spec Fa Fb sa sb (.recv k v) trivial ha hb hop
+  | stat k => exact replica2_both_spec Fa Fb sa sb (.stat k) trivial ha hb hop
+  | enum after limit => exact replica2_both_spec Fa Fb sa sb (.enum after limit) trivial ha hb hop
+  | fetch k => exact replica2_fetch_step Fa Fb sa sb k ha hb
+  | rm k =>
+    rcases replica2_rm_step Fa Fb sa sb k ha hb with h | ⟨_, h1, _⟩
+    · exact h
+    · have := hrm k rfl
+      rcases h1 with ⟨h2, h3⟩ | ⟨h2, h3⟩
+      · rw [this.mp h2] at h3; cases h3
+      · rw [this.mpr h3] at h2; cases h2
+
+/-- the StepOK/Inv contract of the real `replica2Impl` for every operation that is not `.rm` -/
+theorem replica2_step_ok_except_rm {content : Bytes → Bytes} {a b : Impl} (Fa : FRefines content a)
+    (Fb : FRefines content b) (sa : a.σ) (sb : b.σ) (op : Op)
+    (ha : Fa.Inv sa) (hb : Fb.Inv sb) (hop : op.WK content) (hnrm : ∀ k, op ≠ .rm k) :
+    (Fa.Inv ((replica2Impl a b).step (sa, sb) op).1.1 ∧ Fb.Inv ((replica2Impl a b).step (sa, sb) op).1.2) ∧
+    StepOK (union (Fa.abs sa) (Fb.abs sb))
+      (union (Fa.abs ((replica2Impl a b).step (sa, sb) op).1.1)
+        (Fb.abs ((replica2Impl a b).step (sa, sb) op).1.2))
+      ((replica2Impl a b).step (sa, sb) op).2 op :=
+  have P := replica2_step_ok_of Fa Fb sa sb op ha hb hop (fun k h => absurd h (hnrm k))
+  ⟨⟨P.1, P.2.1⟩, P.2.2.2.2.1⟩
+
+/-- whatever failed, every step of the real replica keeps both sub-invariants -/
+theorem replica2_step_inv {content : Bytes → Bytes} {a b : Impl} (Fa : FRefines content a)
+    (Fb : FRefines content b) (sa : a.σ) (sb : b.σ) (op : Op)
+    (ha : Fa.Inv sa) (hb : Fb.Inv sb) (hop : op.WK content) :
+    Fa.Inv ((replica2Impl a b).step (sa, sb) op).1.1 ∧ Fb.Inv ((replica2Impl a b).step (sa, sb) op).1.2 := by
+  cases op with
+  | recv k v => exact let P := replica2_both_spec Fa Fb sa sb (.recv k v) trivial ha hb hop; ⟨P.1, P.2.1⟩
+  | stat k => exact let P := replica2_both_spec Fa Fb sa sb (.stat k) trivial ha hb hop; ⟨P.1, P.2.1⟩
+  | enum x l => exact let P := replica2_both_spec Fa Fb sa sb (.enum x l) trivial ha hb hop; ⟨P.1, P.2.1⟩
+  | fetch k => exact let P := replica2_fetch_step Fa Fb sa sb k ha hb; ⟨P.1, P.2.1⟩
+  | rm k =>
+    rcases replica2_rm_step Fa Fb sa sb k ha hb with P | ⟨_, _, h1, h2, _⟩
+    · exact ⟨P.1, P.2.1⟩
+    · exact ⟨h1, h2⟩
+
+/-- in quiet states every step of the real replica is exact, `.rm` included -/
+theorem replica2_quiet_step {content : Bytes → Bytes} {a b : Impl} (Fa : FRefines content a)
+    (Fb : FRefines content b) (sa : a.σ) (sb : b.σ) (op : Op)
+    (ha : Fa.Inv sa) (hb : Fb.Inv sb) (hq : Fa.Quiet sa ∧ Fb.Quiet sb) (hop : op.WK content) :
+    ((replica2Impl a b).step (sa, sb) op).2 = out (union (Fa.abs sa) (Fb.abs sb)) op ∧
+    union (Fa.abs ((replica2Impl a b).step (sa, sb) op).1.1)
+      (Fb.abs ((replica2Impl a b).step (sa, sb) op).1.2) = next (union (Fa.abs sa) (Fb.abs sb)) op ∧
+    (Fa.Quiet ((replica2Impl a b).step (sa, sb) op).1.1 ∧
+     Fb.Quiet ((replica2Impl a b).step (sa, sb) op).1.2) := by
+  cases op with
+  | recv k v => exact (replica2_both_spec Fa Fb sa sb (.recv k v) trivial ha hb hop).2.2.2.2.2 hq
+  | stat k => exact (replica2_both_spec Fa Fb sa sb (.stat k) trivial ha hb hop).2.2.2.2.2 hq
+  | enum x l => exact (replica2_both_spec Fa Fb sa sb (.enum x l) trivial ha hb hop).2.2.2.2.2 hq
+  | fetch k => exact (replica2_fetch_step Fa Fb sa sb k ha hb).2.2.2.2.2 hq
+  | rm k =>
+    rcases replica2_rm_step Fa Fb sa sb k ha hb with P | ⟨_, _, _, _, _, _, _, h⟩
+    · exact P.2.2.2.2.2 hq
+    · exact absurd hq h
+
+/-- so the real replica, too, recovers: after any history with any failures, once both sides are quiet
+it answers every further history exactly like the reference map started from the union -/
+theorem replica2_recovers {content : Bytes → Bytes} {a b : Impl} (Fa : FRefines content a)
+    (Fb : FRefines content b) (s : a.σ × b.σ) (ha : Fa.Inv s.1) (hb : Fb.Inv s.2)
+    (hq : Fa.Quiet s.1 ∧ Fb.Quiet s.2) (ops : List Op) (hops : ∀ op ∈ ops, op.WK content) :
+    (replica2Impl a b).run s ops = run (union (Fa.abs s.1) (Fb.abs s.2)) ops := by
+  induction ops generalizing s with
+  | nil => rfl
+  | cons op ops ih =>
+    obtain ⟨sa, sb⟩ := s
+    have hop := hops op (by simp)
+    obtain ⟨ho, hab, hq'⟩ := replica2_quiet_step Fa Fb sa sb op ha hb hq hop
+    obtain ⟨hia, hib⟩ := replica2_step_inv Fa Fb sa sb op ha hb hop
+    simp only [Impl.run, run, ho]
+    rw [ih _ hia hib hq' (fun o ho' => hops o (by simp [ho'])), hab]
+
+/-- "best effort" remove, concretely: two memory stores, the first one's 2nd call fails before taking
+effect.  Receive, remove, fetch: the remove answers `.ok` (the second store did remove), no call
+answers an error, and yet the blob is still served afterwards.  The reference map says "not there". -/
+theorem replica2_rm_best_effort_counterexample :
+    (replica2Impl (faultLeaf memImpl [.none, .before]) (faultLeaf memImpl [])).run
+        (replica2Impl (faultLeaf memImpl [.none, .before]) (faultLeaf memImpl [])).init
+        [.recv [1] [7], .rm [1], .fetch [1]] = [.sized 1, .ok, .bytes [7]] ∧
+    run [] [.recv [1] [7], .rm [1], .fetch [1]] = [.sized 1, .ok, .notExist] := by
+  decide
+
+/-- the same step against the contract: contents `{[1] ↦ [7]}` before and after, answer `.ok` -/
+theorem replica2_rm_best_effort_not_stepOK :
+    let I := replica2Impl (faultLeaf memImpl [.before]) (faultLeaf memImpl [])
+    let s : I.σ := (([([1], [7])], [.before]), ([([1], [7])], []))
+    (I.step s (.rm [1])).2 = .ok ∧
+    ¬ StepOK (union s.1.1 s.2.1) (union (I.step s (.rm [1])).1.1.1 (I.step s (.rm [1])).1.2.1)
+        (I.step s (.rm [1])).2 (.rm [1]) := by
+  unfold StepOK
+  decide
+
+/-! ### finding F-C13-5 (fixed): the old fetch fallback -/
+
+/-- `replica2Impl` with the fetch as it was before the repair of finding F-C13-5 (replica.go `Fetch`
+returning the LAST replica's error): after a FAILURE of the first replica the second replica's answer
+is passed on as it is, "not there" included.  A local definition, for the record only. -/
+def replica2OldFetchImpl (a b : Impl) : Impl where
+  σ := a.σ × b.σ
+  init := (a.init, b.init)
+  step := fun (sa, sb) op =>
+    match op with
+    | .fetch k => fetchStep a b id sa sb k
+    | op => (replica2Impl a b).step (sa, sb) op
+
+/-- the old fetch: either the full contract, or – the first replica's fetch having FAILED and the
+second not holding the blob – the call answers "not there" although the first replica may well hold
+the blob; the contents are untouched -/
+theorem replica2OldFetch_fetch_step {content : Bytes → Bytes} {a b : Impl} (Fa : FRefines content a)
+    (Fb : FRefines content b) (sa : a.σ) (sb : b.σ) (k : Bytes) (ha : Fa.Inv sa) (hb : Fb.Inv sb) :
+    PairSpec Fa Fb (sa, sb) ((replica2OldFetchImpl a b).step (sa, sb) (.fetch k)).1
+      ((replica2OldFetchImpl a b).step (sa, sb) (.fetch k)).2 (.fetch k) ∨
+    (((replica2OldFetchImpl a b).step (sa, sb) (.fetch k)).2 = .notExist ∧
+     (a.step sa (.fetch k)).2 = .err ∧ (b.step sb (.fetch k)).2 = .notExist ∧
+     Fa.Inv ((replica2OldFetchImpl a b).step (sa, sb) (.fetch k)).1.1 ∧
+     Fb.Inv ((replica2OldFetchImpl a b).step (sa, sb) (.fetch k)).1.2 ∧
+     Fa.abs ((replica2OldFetchImpl a b).step (sa, sb) (.fetch k)).1.1 = Fa.abs sa ∧
+     Fb.abs ((replica2OldFetchImpl a b).step (sa, sb) (.fetch k)).1.2 = Fb.abs sb ∧
+     ¬ (Fa.Quiet sa ∧ Fb.Quiet sb)) := by
+  show PairSpec Fa Fb (sa, sb) (fetchStep a b id sa sb k).1 (fetchStep a b id sa sb k).2 (.fetch k) ∨
+    ((fetchStep a b id sa sb k).2 = .notExist ∧ _ ∧ _ ∧ Fa.Inv (fetchStep a b id sa sb k).1.1 ∧
+     Fb.Inv (fetchStep a b id sa sb k).1.2 ∧ Fa.abs (fetchStep a b id sa sb k).1.1 = Fa.abs sa ∧
+     Fb.abs (fetchStep a b id sa sb k).1.2 = Fb.abs sb ∧ _)
+  obtain ⟨h1, h2, h3, h4, h5, h6⟩ := fetchStep_spec Fa Fb id rfl (fun _ => rfl) sa sb k ha hb
+  have hU : union (Fa.abs (fetchStep a b id sa sb k).1.1) (Fb.abs (fetchStep a b id sa sb k).1.2) =
+      next (union (Fa.abs sa) (Fb.abs sb)) (.fetch k) := by rw [h3, h4]; rfl
+  have hq := fun hQ => (⟨(h6 hQ).1, hU, (h6 hQ).2⟩ :
+    (fetchStep a b id sa sb k).2 = out (union (Fa.abs sa) (Fb.abs sb)) (.fetch k) ∧ _ ∧ _)
+  rcases h5 with h | h | ⟨h, ha', hb', _, hnq⟩
+  · exact Or.inl ⟨h1, h2, Or.inl h3, Or.inl h4, Or.inl ⟨h, hU⟩, hq⟩
+  · exact Or.inl ⟨h1, h2, Or.inl h3, Or.inl h4, Or.inr ⟨h, Or.inr hU⟩, hq⟩
+  · exact Or.inr ⟨h, ha', hb', h1, h2, h3, h4, fun hQ => hnq hQ.1⟩
+
+/-- the old fetch fallback, concretely: a receive reaches the first store only (the second one's call
+fails: the receive answers `.err`, which is fine); then the first store's fetch fails once: the old
+replica asks the second store and passes on its "not there"; the next fetch serves the blob.  No
+reference map answers "not there" and then the bytes without a receive in between.  The repaired
+model answers `.err` to the middle call. -/
+theorem replica2_fetch_fallback_counterexample :
+    (replica2OldFetchImpl (faultLeaf memImpl [.none, .before]) (faultLeaf memImpl [.before])).run
+        (replica2OldFetchImpl (faultLeaf memImpl [.none, .before]) (faultLeaf memImpl [.before])).init
+        [.recv [1] [7], .fetch [1], .fetch [1]] = [.err, .notExist, .bytes [7]] ∧
+    (replica2Impl (faultLeaf memImpl [.none, .before]) (faultLeaf memImpl [.before])).run
+        (replica2Impl (faultLeaf memImpl [.none, .before]) (faultLeaf memImpl [.before])).init
+        [.recv [1] [7], .fetch [1], .fetch [1]] = [.err, .err, .bytes [7]] := by
+  decide
+
+/-- the same step of the old fetch against the contract: contents `{[1] ↦ [7]}` (held by the first
+store only), the first store's fetch fails, the answer is `.notExist`: neither exact nor `.err` -/
+theorem replica2_fetch_fallback_not_stepOK :
+    let I := replica2OldFetchImpl (faultLeaf memImpl [.before]) (faultLeaf memImpl [])
+    let s : I.σ := (([([1], [7])], [.before]), ([], []))
+    (I.step s (.fetch [1])).2 = .notExist ∧
+    ¬ StepOK (union s.1.1 s.2.1) (union (I.step s (.fetch [1])).1.1.1 (I.step s (.fetch [1])).1.2.1)
+        (I.step s (.fetch [1])).2 (.fetch [1]) := by
+  unfold StepOK
+  decide
+
+/-! ### two fault-tolerant stores holding disjoint parts of the key space -/
+
+/-- both sub-invariants hold, `a` holds only keys on side `false`, `b` only keys on side `true` -/
+def PartFInv {content : Bytes → Bytes} {a b : Impl} (Fa : FRefines content a) (Fb : FRefines content b)
+    (side : Bytes → Bool) (s : a.σ × b.σ) : Prop :=
+  Fa.Inv s.1 ∧ Fb.Inv s.2 ∧
+  (∀ k, has (Fa.abs s.1) k = true → side k = false) ∧
+  (∀ k, has (Fb.abs s.2) k = true → side k = true)
+
+/-- a store at its before- or after-state of `op` still holds keys of its side only, provided a
+received key is of its side -/
+theorem side_keep {m m' : SMap Bytes} {side : Bytes → Bool} {c : Bool} (hm : KAsc m)
+    (h : ∀ k, has m k = true → side k = c) (op : Op) (hmv : m' = m ∨ m' = next m op)
+    (hr : opIsRecv op = true → side (opKey op) = c) : ∀ k, has m' k = true → side k = c := by
+  rcases hmv with rfl | rfl
+  · exact h
+  · intro k hh
+    rcases has_next hm op k hh with h1 | ⟨h1, h2⟩
+    · exact h k h1
+    · rw [h2]; exact hr h1
+
+theorem stepSpec_union_left {A B A' : SMap Bytes} {o : Out} {op : Op} {q q' r : Prop}
+    (hA : KAsc A) (hB : KAsc B) (hne : opIsEnum op = false) (hk : has B (opKey op) = false)
+    (h : StepSpec A A' o op q q') :
+    StepSpec (union A B) (union A' B) o op (q ∧ r) (q' ∧ r) := by
+  have hex : o = out A op → A' = next A op →
+      o = out (union A B) op ∧ union A' B = next (union A B) op := by
+    intro ho ha
+    exact ⟨ho.trans (out_union_left op hne hk), by rw [ha]; exact next_union_left hA hB op hk⟩
+  refine ⟨?_, fun hQ => ?_⟩
+  · rcases h.1 with ⟨ho, ha⟩ | ⟨ho, ha | ha⟩
+    · exact Or.inl (hex ho ha)
+    · exact Or.inr ⟨ho, Or.inl (by rw [ha])⟩
+    · exact Or.inr ⟨ho, Or.inr (by rw [ha]; exact next_union_left hA hB op hk)⟩
+  · obtain ⟨ho, ha, hq'⟩ := h.2 hQ.1
+    exact ⟨(hex ho ha).1, (hex ho ha).2, hq', hQ.2⟩
+
+theorem stepSpec_union_right {A B B' : SMap Bytes} {o : Out} {op : Op} {q q' r : Prop}
+    (hA : KAsc A) (hB : KAsc B) (hne : opIsEnum op = false) (hk : has A (opKey op) = false)
+    (h : StepSpec B B' o op q q') :
+    StepSpec (union A B) (union A B') o op (r ∧ q) (r ∧ q') := by
+  have hex : o = out B op → B' = next B op →
+      o = out (union A B) op ∧ union A B' = next (union A B) op := by
+    intro ho ha
+    exact ⟨ho.trans (out_union_right op hne hk), by rw [ha]; exact next_union_right hA hB op hk⟩
+  refine ⟨?_, fun hQ => ?_⟩
+  · rcases h.1 with ⟨ho, ha⟩ | ⟨ho, ha | ha⟩
+    · exact Or.inl (hex ho ha)
+    · exact Or.inr ⟨ho, Or.inl (by rw [ha])⟩
+    · exact Or.inr ⟨ho, Or.inr (by rw [ha]; exact next_union_right hA hB op hk)⟩
+  · obtain ⟨ho, ha, hq'⟩ := h.2 hQ.2
+    exact ⟨(hex ho ha).1, (hex ho ha).2, hQ.1, hq'⟩
+
+/-- what a step of a partitioned pair owes -/
+def PartSpec {content : Bytes → Bytes} {a b : Impl} (Fa : FRefines content a) (Fb : FRefines content b)
+    (side : Bytes → Bool) (s s' : a.σ × b.σ) (o : Out) (op : Op) : Prop :=
+  PartFInv Fa Fb side s' ∧
+  StepSpec (union (Fa.abs s.1) (Fb.abs s.2)) (union (Fa.abs s'.1) (Fb.abs s'.2)) o op
+    (Fa.Quiet s.1 ∧ Fb.Quiet s.2) (Fa.Quiet s'.1 ∧ Fb.Quiet s'.2)
+
+/-- a keyed operation sent to `a` only, its key being on `a`'s side -/
+theorem fpart_left {content : Bytes → Bytes} {a b : Impl} (Fa : FRefines content a)
+    (Fb : FRefines content b) (side : Bytes → Bool) (sa : a.σ) (sb : b.σ) (op : Op)
+    (hne : opIsEnum op = false) (hI : PartFInv Fa Fb side (sa, sb)) (hop : op.WK content)
+    (hs : side (opKey op) = false) :
+    PartSpec Fa Fb side (sa, sb) ((a.step sa op).1, sb) (a.step sa op).2 op := by
+  obtain ⟨hRa, hRb, hA, hB⟩ := hI
+  obtain ⟨hi, hsp⟩ := Fa.sub sa op hRa hop
+  have hk : has (Fb.abs sb) (opKey op) = false := has_false_of_side hB _ (by simp [hs])
+  exact ⟨⟨hi, hRb, side_keep (Fa.good sa hRa).1 hA op (stepOK_move hsp.1) (fun _ => hs), hB⟩,
+    stepSpec_union_left (Fa.good sa hRa).1 (Fb.good sb hRb).1 hne hk hsp⟩
+
+/-- a keyed operation sent to `b` only, its key being on `b`'s side -/
+theorem fpart_right {content : Bytes → Bytes} {a b : Impl} (Fa : FRefines content a)
+    (Fb : FRefines content b) (side : Bytes → Bool) (sa : a.σ) (sb : b.σ) (op : Op)
+    (hne : opIsEnum op = false) (hI : PartFInv Fa Fb side (sa, sb)) (hop : op.WK content)
+    (hs : side (opKey op) = true) :
+    PartSpec Fa Fb side (sa, sb) (sa, (b.step sb op).1) (b.step sb op).2 op := by
+  obtain ⟨hRa, hRb, hA, hB⟩ := hI
+  obtain ⟨hi, hsp⟩ := Fb.sub sb op hRb hop
+  have hk : has (Fa.abs sa) (opKey op) = false := has_false_of_side hA _ (by simp [hs])
+  exact ⟨⟨hRa, hi, hA, side_keep (Fb.good sb hRb).1 hB op (stepOK_move hsp.1) (fun _ => hs)⟩,
+    stepSpec_union_right (Fa.good sa hRa).1 (Fb.good sb hRb).1 hne hk hsp⟩
+
+/-- a `PairSpec` step that is not a receive keeps the partition -/
+theorem part_of_pair {content : Bytes → Bytes} {a b : Impl} (Fa : FRefines content a)
+    (Fb : FRefines content b) (side : Bytes → Bool) (s s' : a.σ × b.σ) (o : Out) (op : Op)
+    (hnr : opIsRecv op = false) (hI : PartFInv Fa Fb side s) (P : PairSpec Fa Fb s s' o op) :
+    PartSpec Fa Fb side s s' o op := by
+  obtain ⟨hRa, hRb, hA, hB⟩ := hI
+  obtain ⟨hia, hib, hma, hmb, hsp⟩ := P
+  exact ⟨⟨hia, hib,
+    side_keep (Fa.good _ hRa).1 hA op hma (fun h => by rw [hnr] at h; cases h),
+    side_keep (Fb.good _ hRb).1 hB op hmb (fun h => by rw [hnr] at h; cases h)⟩, hsp⟩
+
+/-! ### 2. shard -/
+
+theorem shard2_step_F {content : Bytes → Bytes} (route : Bytes → Bool) {a b : Impl}
+    (Fa : FRefines content a) (Fb : FRefines content b) (sa : a.σ) (sb : b.σ) (op : Op)
+    (hI : PartFInv Fa Fb route (sa, sb)) (hop : op.WK content) :
+    PartSpec Fa Fb route (sa, sb) ((shard2Impl route a b).step (sa, sb) op).1
+      ((shard2Impl route a b).step (sa, sb) op).2 op := by
+  cases op with
+  | enum after limit =>
+    have P := pair_both Fa Fb sa sb (.enum after limit) hI.1 hI.2.1 hop (enumAns limit)
+      (fun _ _ _ _ h1 h2 => enumAns_exact (Fa.good sa hI.1) (Fb.good sb hI.2.1) h1 h2)
+      (enumAns_err_left limit) (enumAns_err_right limit)
+    have := part_of_pair Fa Fb route _ _ _ _ rfl hI P
+    simp only [shard2Impl, enum2_eq]
+    exact this
+  | recv k v =>
+    simp only [shard2Impl]
+    by_cases hr : route k = true
+    · simp only [hr, if_true]; exact fpart_right Fa Fb route sa sb _ rfl hI hop hr
+    · have hr' : route k = false := by cases h : route k <;> simp_all
+      simp only [hr', Bool.false_eq_true, if_false]; exact fpart_left Fa Fb route sa sb _ rfl hI hop hr'
+  | fetch k =>
+    simp only [shard2Impl]
+    by_cases hr : route k = true
+    · simp only [hr, if_true]; exact fpart_right Fa Fb route sa sb _ rfl hI hop hr
+    · have hr' : route k = false := by cases h : route k <;> simp_all
+      simp only [hr', Bool.false_eq_true, if_false]; exact fpart_left Fa Fb route sa sb _ rfl hI hop hr'
+  | stat k =>
+    simp only [shard2Impl]
+    by_cases hr : route k = true
+    · simp only [hr, if_true]; exact fpart_right Fa Fb route sa sb _ rfl hI hop hr
+    · have hr' : route k = false := by cases h : route k <;> simp_all
+      simp only [hr', Bool.false_eq_true, if_false]; exact fpart_left Fa Fb route sa sb _ rfl hI hop hr'
+  | rm k =>
+    simp only [shard2Impl]
+    by_cases hr : route k = true
+    · simp only [hr, if_true]; exact fpart_right Fa Fb route sa sb _ rfl hI hop hr
+    · have hr' : route k = false := by cases h : route k <;> simp_all
+      simp only [hr', Bool.false_eq_true, if_false]; exact fpart_left Fa Fb route sa sb _ rfl hI hop hr'
+
+/-- shard over two fault-tolerant stores is fault-tolerant (the model as written, no caveat: a keyed
+call reaches one shard only and its error is passed on; enumerate fails if either shard's does) -/
+def shard2FRefines {content : Bytes → Bytes} (route : Bytes → Bool) {a b : Impl}
+    (Fa : FRefines content a) (Fb : FRefines content b) : FRefines content (shard2Impl route a b) where
+  abs := fun s => union (Fa.abs s.1) (Fb.abs s.2)
+  Inv := PartFInv Fa Fb route
+  Quiet := fun s => Fa.Quiet s.1 ∧ Fb.Quiet s.2
+  init_inv := ⟨Fa.init_inv, Fb.init_inv,
+    by intro k h; simp [shard2Impl, Fa.init_abs, has, SMap.get] at h,
+    by intro k h; simp [shard2Impl, Fb.init_abs, has, SMap.get] at h⟩
+  init_abs := by simp [shard2Impl, Fa.init_abs, Fb.init_abs, union]
+  good := fun s h => good_union (Fa.good _ h.1) (Fb.good _ h.2.1)
+  step_ok := fun s op h hop =>
+    have p := shard2_step_F route Fa Fb s.1 s.2 op h hop
+    ⟨p.1, p.2.1⟩
+  quiet_step := fun s op h hq hop => (shard2_step_F route Fa Fb s.1 s.2 op h hop).2.2 hq
+
+/-! ### 4. cond -/
+
+/-- `cond2Impl` with reads and removes going through the strict replica (see `replica2StrictImpl`) -/
+def cond2StrictImpl (isSchema : Bytes → Bool) (t e : Impl) : Impl where
+  σ := t.σ × e.σ
+  init := (t.init, e.init)
+  step := fun (st, se) op =>
+    match op with
+    | .recv _ v =>
+      if isSchema v then
+        match t.step st op with
+        | (st1, o) => ((st1, se), o)
+      else
+        match e.step se op with
+        | (se1, o) => ((st, se1), o)
+    | op => (replica2StrictImpl t e).step (st, se) op
+
+/-- the invariant of cond: `t` holds only blobs whose content is schema, `e` only the others -/
+def CondFInv {content : Bytes → Bytes} (isSchema : Bytes → Bool) {t e : Impl} (Ft : FRefines content t)
+    (Fe : FRefines content e) (s : t.σ × e.σ) : Prop :=
+  PartFInv Ft Fe (fun k => !isSchema (content k)) s
+
+/-- a well-keyed receive of cond: to the one store chosen by sniffing the bytes (both models) -/
+theorem cond2_recv_F {content : Bytes → Bytes} (isSchema : Bytes → Bool) {t e : Impl}
+    (Ft : FRefines content t) (Fe : FRefines content e) (st : t.σ) (se : e.σ) (k v : Bytes)
+    (hI : CondFInv isSchema Ft Fe (st, se)) (hop : (Op.recv k v).WK content) :
+    PartSpec Ft Fe (fun k => !isSchema (content k)) (st, se)
+      ((cond2Impl isSchema t e).step (st, se) (.recv k v)).1
+      ((cond2Impl isSchema t e).step (st, se) (.recv k v)).2 (.recv k v) := by
+  have hv : v = content k := hop.1
+  simp only [cond2Impl]
+  by_cases hs : isSchema v = true
+  · simp only [hs, if_true]
+    exact fpart_left Ft Fe _ st se _ rfl hI hop (by simp [opKey, ← hv, hs])
+  · have hs' : isSchema v = false := by cases h : isSchema v <;> simp_all
+    simp only [hs', Bool.false_eq_true, if_false]
+    exact fpart_right Ft Fe _ st se _ rfl hI hop (by simp [opKey, ← hv, hs'])
+
+theorem cond2Strict_recv_eq (isSchema : Bytes → Bool) (t e : Impl) (s : t.σ × e.σ) (k v : Bytes) :
+    (cond2StrictImpl isSchema t e).step s (.recv k v) = (cond2Impl isSchema t e).step s (.recv k v) :=
+  rfl
+
+theorem cond2Strict_step {content : Bytes → Bytes} (isSchema : Bytes → Bool) {t e : Impl}
+    (Ft : FRefines content t) (Fe : FRefines content e) (st : t.σ) (se : e.σ) (op : Op)
+    (hI : CondFInv isSchema Ft Fe (st, se)) (hop : op.WK content) :
+    PartSpec Ft Fe (fun k => !isSchema (content k)) (st, se)
+      ((cond2StrictImpl isSchema t e).step (st, se) op).1
+      ((cond2StrictImpl isSchema t e).step (st, se) op).2 op := by
+  cases op with
+  | recv k v => rw [cond2Strict_recv_eq]; exact cond2_recv_F isSchema Ft Fe st se k v hI hop
+  | fetch k =>
+    exact part_of_pair Ft Fe _ _ _ _ _ rfl hI (replica2Strict_step Ft Fe st se (.fetch k) hI.1 hI.2.1 hop)
+  | stat k =>
+    exact part_of_pair Ft Fe _ _ _ _ _ rfl hI (replica2Strict_step Ft Fe st se (.stat k) hI.1 hI.2.1 hop)
+  | rm k =>
+    exact part_of_pair Ft Fe _ _ _ _ _ rfl hI (replica2Strict_step Ft Fe st se (.rm k) hI.1 hI.2.1 hop)
+  | enum x l =>
+    exact part_of_pair Ft Fe _ _ _ _ _ rfl hI (replica2Strict_step Ft Fe st se (.enum x l) hI.1 hI.2.1 hop)
+
+/-- cond (write by sniffing, read and remove through the strict replica of both targets) over two
+fault-tolerant stores is fault-tolerant -/
+def cond2FRefines {content : Bytes → Bytes} (isSchema : Bytes → Bool) {t e : Impl}
+    (Ft : FRefines content t) (Fe : FRefines content e) :
+    FRefines content (cond2StrictImpl isSchema t e) where
+  abs := fun s => union (Ft.abs s.1) (Fe.abs s.2)
+  Inv := CondFInv isSchema Ft Fe
+  Quiet := fun s => Ft.Quiet s.1 ∧ Fe.Quiet s.2
+  init_inv := ⟨Ft.init_inv, Fe.init_inv,
+    by intro k h; simp [cond2StrictImpl, Ft.init_abs, has, SMap.get] at h,
+    by intro k h; simp [cond2StrictImpl, Fe.init_abs, has, SMap.get] at h⟩
+  init_abs := by simp [cond2StrictImpl, Ft.init_abs, Fe.init_abs, union]
+  good := fun s h => good_union (Ft.good _ h.1) (Fe.good _ h.2.1)
+  step_ok := fun s op h hop =>
+    have p := cond2Strict_step isSchema Ft Fe s.1 s.2 op h hop
+    ⟨p.1, p.2.1⟩
+  quiet_step := fun s op h hq hop => (cond2Strict_step isSchema Ft Fe s.1 s.2 op h hop).2.2 hq
+
+/-! ### 4b. the real cond: reads and removes are the real replica's, with its one bad answer -/
+
+/-- the contract of the real `cond2Impl`, for every operation, PROVIDED the bad case of the real
+replica (a remove on which exactly one store answered `.ok`) does not occur at this step -/
+theorem cond2_step_ok_of {content : Bytes → Bytes} (isSchema : Bytes → Bool) {t e : Impl}
+    (Ft : FRefines content t) (Fe : FRefines content e) (st : t.σ) (se : e.σ) (op : Op)
+    (hI : CondFInv isSchema Ft Fe (st, se)) (hop : op.WK content)
+    (hrm : ∀ k, op = .rm k → ((t.step st (.rm k)).2 = .ok ↔ (e.step se (.rm k)).2 = .ok)) :
+    PartSpec Ft Fe (fun k => !isSchema (content k)) (st, se)
+      ((cond2Impl isSchema t e).step (st, se) op).1 ((cond2Impl isSchema t e).step (st, se) op).2 op := by
+  have P := fun hnr : opIsRecv op = false => part_of_pair Ft Fe (fun k => !isSchema (content k))
+    (st, se) _ _ op hnr hI (replica2_step_ok_of Ft Fe st se op hI.1 hI.2.1 hop hrm)
+  cases op with
+  | recv k v => exact cond2_recv_F isSchema Ft Fe st se k v hI hop
+  | fetch k => exact P rfl
+  | stat k => exact P rfl
+  | rm k => exact P rfl
+  | enum x l => exact P rfl
+
+/-- the StepOK/Inv contract of the real `cond2Impl` for every operation that is not `.rm` -/
+theorem cond2_step_ok_except_rm {content : Bytes → Bytes} (isSchema : Bytes → Bool) {t e : Impl}
+    (Ft : FRefines content t) (Fe : FRefines content e) (st : t.σ) (se : e.σ) (op : Op)
+    (hI : CondFInv isSchema Ft Fe (st, se)) (hop : op.WK content) (hnrm : ∀ k, op ≠ .rm k) :
+    CondFInv isSchema Ft Fe ((cond2Impl isSchema t e).step (st, se) op).1 ∧
+    StepOK (union (Ft.abs st) (Fe.abs se))
+      (union (Ft.abs ((cond2Impl isSchema t e).step (st, se) op).1.1)
+        (Fe.abs ((cond2Impl isSchema t e).step (st, se) op).1.2))
+      ((cond2Impl isSchema t e).step (st, se) op).2 op :=
+  have P := cond2_step_ok_of isSchema Ft Fe st se op hI hop (fun k h => absurd h (hnrm k))
+  ⟨P.1, P.2.1⟩
+
+/-- whatever failed, every step of the real cond keeps its invariant -/
+theorem cond2_step_inv {content : Bytes → Bytes} (isSchema : Bytes → Bool) {t e : Impl}
+    (Ft : FRefines content t) (Fe : FRefines content e) (st : t.σ) (se : e.σ) (op : Op)
+    (hI : CondFInv isSchema Ft Fe (st, se)) (hop : op.WK content) :
+    CondFInv isSchema Ft Fe ((cond2Impl isSchema t e).step (st, se) op).1 := by
+  have hgo : ∀ o, (∀ k, op ≠ .rm k) → op = o →
+      CondFInv isSchema Ft Fe ((cond2Impl isSchema t e).step (st, se) o).1 := by
+    intro o h1 ho
+    subst ho
+    exact (cond2_step_ok_of isSchema Ft Fe st se op hI hop (fun k h => absurd h (h1 k))).1
+  obtain ⟨hRa, hRb, hA, hB⟩ := hI
+  cases op with
+  | recv k v => exact hgo _ (fun _ h => by cases h) rfl
+  | stat k => exact hgo _ (fun _ h => by cases h) rfl
+  | enum x l => exact hgo _ (fun _ h => by cases h) rfl
+  | fetch k => exact hgo _ (fun _ h => by cases h) rfl
+  | rm k =>
+    rcases replica2_rm_step Ft Fe st se k hRa hRb with P | ⟨_, _, h1, h2, h3, h4, _⟩
+    · exact (part_of_pair Ft Fe _ (st, se) _ _ _ rfl ⟨hRa, hRb, hA, hB⟩ P).1
+    · exact ⟨h1, h2,
+        side_keep (Ft.good _ hRa).1 hA (.rm k) h3 (fun h => by cases h),
+        side_keep (Fe.good _ hRb).1 hB (.rm k) h4 (fun h => by cases h)⟩
+
+/-- in quiet states every step of the real cond is exact -/
+theorem cond2_quiet_step {content : Bytes → Bytes} (isSchema : Bytes → Bool) {t e : Impl}
+    (Ft : FRefines content t) (Fe : FRefines content e) (st : t.σ) (se : e.σ) (op : Op)
+    (hI : CondFInv isSchema Ft Fe (st, se)) (hq : Ft.Quiet st ∧ Fe.Quiet se) (hop : op.WK content) :
+    ((cond2Impl isSchema t e).step (st, se) op).2 = out (union (Ft.abs st) (Fe.abs se)) op ∧
+    union (Ft.abs ((cond2Impl isSchema t e).step (st, se) op).1.1)
+      (Fe.abs ((cond2Impl isSchema t e).step (st, se) op).1.2) = next (union (Ft.abs st) (Fe.abs se)) op ∧
+    (Ft.Quiet ((cond2Impl isSchema t e).step (st, se) op).1.1 ∧
+     Fe.Quiet ((cond2Impl isSchema t e).step (st, se) op).1.2) := by
+  cases op with
+  | recv k v => exact (cond2_recv_F isSchema Ft Fe st se k v hI hop).2.2 hq
+  | fetch k => exact replica2_quiet_step Ft Fe st se (.fetch k) hI.1 hI.2.1 hq hop
+  | stat k => exact replica2_quiet_step Ft Fe st se (.stat k) hI.1 hI.2.1 hq hop
+  | rm k => exact replica2_quiet_step Ft Fe st se (.rm k) hI.1 hI.2.1 hq hop
+  | enum x l => exact replica2_quiet_step Ft Fe st se (.enum x l) hI.1 hI.2.1 hq hop
+
+/-- so the real cond, too, recovers once both sides are quiet -/
+theorem cond2_recovers {content : Bytes → Bytes} (isSchema : Bytes → Bool) {t e : Impl}
+    (Ft : FRefines content t) (Fe : FRefines content e) (s : t.σ × e.σ)
+    (hI : CondFInv isSchema Ft Fe s) (hq : Ft.Quiet s.1 ∧ Fe.Quiet s.2) (ops : List Op)
+    (hops : ∀ op ∈ ops, op.WK content) :
+    (cond2Impl isSchema t e).run s ops = run (union (Ft.abs s.1) (Fe.abs s.2)) ops := by
+  induction ops generalizing s with
+  | nil => rfl
+  | cons op ops ih =>
+    obtain ⟨st, se⟩ := s
+    have hop := hops op (by simp)
+    obtain ⟨ho, hab, hq'⟩ := cond2_quiet_step isSchema Ft Fe st se op hI hq hop
+    have hi := cond2_step_inv isSchema Ft Fe st se op hI hop
+    simp only [Impl.run, run, ho]
+    rw [ih _ hi hq' (fun o ho' => hops o (by simp [ho'])), hab]
+
+/-- cond, concretely (everything is schema, so every blob lives in the first store and the second
+never holds it): ONE failed remove on the first store is masked by the second store's `.ok` -/
+theorem cond2_rm_best_effort_counterexample :
+    (cond2Impl (fun _ => true) (faultLeaf memImpl [.none, .before]) (faultLeaf memImpl [])).run
+        (cond2Impl (fun _ => true) (faultLeaf memImpl [.none, .before]) (faultLeaf memImpl [])).init
+        [.recv [1] [7], .rm [1], .fetch [1]] = [.sized 1, .ok, .bytes [7]] ∧
+    run [] [.recv [1] [7], .rm [1], .fetch [1]] = [.sized 1, .ok, .notExist] := by
+  decide
+
+/-- `cond2Impl` reading through the OLD replica fetch (before the repair of finding F-C13-5); a
+local definition, for the record only -/
+def cond2OldFetchImpl (isSchema : Bytes → Bool) (t e : Impl) : Impl where
+  σ := t.σ × e.σ
+  init := (t.init, e.init)
+  step := fun (st, se) op =>
+    match op with
+    | .fetch k => (replica2OldFetchImpl t e).step (st, se) (.fetch k)
+    | op => (cond2Impl isSchema t e).step (st, se) op
+
+/-- cond over the OLD fetch, concretely (finding F-C13-5, fixed): ONE failed fetch on the first store
+is answered "not there" (the second store never holds a schema blob), and the next fetch serves the
+blob; no call answers an error.  The repaired model answers `.err` to the middle call. -/
+theorem cond2_fetch_fallback_counterexample :
+    (cond2OldFetchImpl (fun _ => true) (faultLeaf memImpl [.none, .before]) (faultLeaf memImpl [])).run
+        (cond2OldFetchImpl (fun _ => true) (faultLeaf memImpl [.none, .before]) (faultLeaf memImpl [])).init
+        [.recv [1] [7], .fetch [1], .fetch [1]] = [.sized 1, .notExist, .bytes [7]] ∧
+    run [] [.recv [1] [7], .fetch [1], .fetch [1]] = [.sized 1, .bytes [7], .bytes [7]] ∧
+    (cond2Impl (fun _ => true) (faultLeaf memImpl [.none, .before]) (faultLeaf memImpl [])).run
+        (cond2Impl (fun _ => true) (faultLeaf memImpl [.none, .before]) (faultLeaf memImpl [])).init
+        [.recv [1] [7], .fetch [1], .fetch [1]] = [.sized 1, .err, .bytes [7]] := by
+  decide
 
 end Pk.Stores
